@@ -1,5 +1,66 @@
-(** C06 — pinned statements. Nothing but statements, [exact], and assumption audits. *)
-From TU Require Import Base C06_Model C06_Subseq.
+(** C06 — pinned statements. Nothing but statements, [exact], and assumption audits.
+    [batches size sort shuffle prefetch limit ty o input]: the model of
+    Batched::new (limit 0 |-> 1, prefetch 0 |-> 1) + draining the iterator, for an
+    arbitrary item type with size function [size]; [o] is the oracle for the rng
+    ([oracle_guard]: shuffle permutes, random_range(0..m) < m). *)
+From TU Require Import Base C06_Model C06_Subseq C06_Proofs C06_Loop C06_Top.
+Require Import Permutation.
+
+(** Termination: for every oracle in range the fuel (one call of next() per item, plus
+    one) is never exhausted, no assertion / splice / index panic is reached, and
+    [BadOracle] is not returned: all four modes, both limit types, every prefetch and limit
+    incl. 0, zero sizes, oversized items. *)
+Theorem batches_total : forall (A : Type) (size : A -> nat) sort shuffle prefetch lim ty o (input : list A),
+  oracle_guard o -> exists bs, batches size sort shuffle prefetch lim ty o input = Ok bs.
+Proof. exact @batches_total_l. Qed.
+Print Assumptions batches_total.
+
+(** For an arbitrary oracle: never out of fuel, never an assertion failure; [BadOracle]
+    only if the oracle is out of range. *)
+Theorem batches_never_stuck : forall (A : Type) (size : A -> nat) sort shuffle prefetch lim ty o (input : list A),
+  batches size sort shuffle prefetch lim ty o input <> Err OutOfFuel /\
+  batches size sort shuffle prefetch lim ty o input <> Err AssertFail /\
+  (batches size sort shuffle prefetch lim ty o input = Err BadOracle -> ~ oracle_guard o).
+Proof. exact @batches_safe_l. Qed.
+Print Assumptions batches_never_stuck.
+
+(** The two modes without shuffle never consult the oracle. *)
+Theorem batches_total_deterministic : forall (A : Type) (size : A -> nat) sort prefetch lim ty o (input : list A),
+  exists bs, batches size sort false prefetch lim ty o input = Ok bs.
+Proof. exact @batches_total_det_l. Qed.
+Print Assumptions batches_total_deterministic.
+
+(** Partition, no empty batch, limit (item count, or count x largest size, for every
+    batch with more than one item) — for every oracle value that yields a result. *)
+Theorem batches_partition : forall (A : Type) (size : A -> nat) sort shuffle prefetch lim ty o (input : list A) bs,
+  batches size sort shuffle prefetch lim ty o input = Ok bs -> Permutation (concat bs) input.
+Proof. exact batches_partition_l. Qed.
+Print Assumptions batches_partition.
+
+Theorem batches_nonempty : forall (A : Type) (size : A -> nat) sort shuffle prefetch lim ty o (input : list A) bs,
+  batches size sort shuffle prefetch lim ty o input = Ok bs -> Forall (fun b => b <> []) bs.
+Proof. exact batches_nonempty_l. Qed.
+Print Assumptions batches_nonempty.
+
+Theorem batches_limit : forall (A : Type) (size : A -> nat) sort shuffle prefetch lim ty o (input : list A) bs,
+  batches size sort shuffle prefetch lim ty o input = Ok bs ->
+  Forall (fun b => 1 < length b -> limit size ty b <= Nat.max lim 1) bs.
+Proof. exact batches_limit_l. Qed.
+Print Assumptions batches_limit.
+
+(** Without sort and shuffle the concatenation of the batches is the input ... *)
+Theorem plain_order : forall (A : Type) (size : A -> nat) prefetch lim ty o (input : list A) bs,
+  batches size false false prefetch lim ty o input = Ok bs -> concat bs = input.
+Proof. exact plain_order_l. Qed.
+Print Assumptions plain_order.
+
+(** ... and each batch is greedy-maximal: it could not have taken the first item of its successor. *)
+Theorem plain_greedy : forall (A : Type) (size : A -> nat) prefetch lim ty o (input : list A) bs,
+  batches size false false prefetch lim ty o input = Ok bs ->
+  forall i b b' x, nth_error bs i = Some b -> nth_error bs (S i) = Some (x :: b') ->
+    Nat.max lim 1 < limit size ty (b ++ [x]).
+Proof. exact plain_greedy_l. Qed.
+Print Assumptions plain_greedy.
 
 (** find_subsequences_of_max_size_k: for every size function [sz] (sz s e = size of
     values[s..e]), bound k and length n the loop terminates within its fuel and every
@@ -9,3 +70,35 @@ Theorem find_subseq_ok : forall (sz : nat -> nat -> nat) (k n : nat),
     Forall (fun p => fst p < snd p /\ snd p <= n /\ sz (fst p) (snd p) <= k) subs.
 Proof. exact find_subseq_ok_l. Qed.
 Print Assumptions find_subseq_ok.
+
+(** The executable statement evaluated on implementation outputs holds of the model's own output. *)
+Theorem check_run : forall v, check_C06 v (run_C06 v) = true.
+Proof. exact check_run_l. Qed.
+Print Assumptions check_run.
+
+(** ... and a passing check means: the batches (positions resolved to items) are a
+    partition of the input, none empty, limit respected; plain mode: input order, greedy-maximal. *)
+Theorem check_sound : forall v out, check_C06 v out = true ->
+  let items := v_items v in
+  let ty := v_ty (v_nth 4 v) in
+  let L := Nat.max (v_nat (v_nth 3 v)) 1 in
+  let bs := map (map (lookup items)) (v_batches (v_nth 0 out)) in
+  Permutation (concat bs) items /\
+  Forall (fun b => b <> []) bs /\
+  Forall (fun b => 1 < length b -> limit isize ty b <= L) bs /\
+  (v_bool (v_nth 0 v) = false -> v_bool (v_nth 1 v) = false ->
+   concat bs = items /\
+   forall i b b' x, nth_error bs i = Some b -> nth_error bs (S i) = Some (x :: b') ->
+     L < limit isize ty (b ++ [x])).
+Proof. exact check_sound_l. Qed.
+Print Assumptions check_sound.
+
+(** Non-vacuity: an oracle in range; concrete runs (items = (position, size)). *)
+Example oracle_guard_witness : oracle_guard o_default.
+Proof. exact o_default_guard. Qed.
+Example plain_run : batches isize false false 1 4 Padded o_default (mk_items [3;1;2;5;1;1;4;2])
+  = Ok [[(0, 3)]; [(1, 1); (2, 2)]; [(3, 5)]; [(4, 1); (5, 1)]; [(6, 4)]; [(7, 2)]].
+Proof. vm_compute. reflexivity. Qed.
+Example sort_shuffle_run : batches isize true true 2 3 BatchSize o_default (mk_items [3;1;2;5;1;1;4;2])
+  = Ok [[(1, 1); (4, 1); (5, 1)]; [(2, 2); (7, 2); (0, 3)]; [(6, 4); (3, 5)]].
+Proof. vm_compute. reflexivity. Qed.
